@@ -352,6 +352,18 @@ func (a *Act) unop(st *State, in *ssa.UnOp) {
 		t := a.load(st, lv)
 		a.setVal(in, t)
 		a.assumeWF(st, in.Type(), a.vals[in], 1)
+		if g, ok := in.X.(*ssa.Global); ok {
+			if msg, ok := tr.eng.constErrGlobs[g]; ok {
+				// var ErrX = errors.New("literal"), never assigned: a non-nil plain error with that text
+				code := tr.eng.sorts.otherCode("goerror")
+				name := "errvar_" + mangle(g.Pkg.Pkg.Name()+"_"+g.Name())
+				tr.eng.declareOnce(tr, name, fmt.Sprintf("(declare-const %s Int)", name))
+				tr.eng.declareOnce(tr, "spec_errorString", "(declare-fun spec_errorString (Val) String)")
+				v := fmt.Sprintf("(VOther %d %s)", code, name)
+				tr.assume(Implies(st.reach, And(Eq(a.vals[in], v), Eq(app("spec_errorString", v), StrLit(msg)))), "A-ERRVAR: "+g.Name()+" is errors.New of a literal and never assigned")
+				tr.usedAssumed["A-ERRVAR: package variable "+g.Name()+" = errors.New(literal) is never assigned (inside the module: checked; outside: assumed)"] = true
+			}
+		}
 		a.checkGuardedAccess(st, lv, false, in.Pos(), in)
 		a.checkSharedFlag(st, lv, false, "", in.Pos())
 		if lv.kind == lvField {
